@@ -271,6 +271,12 @@ def evalPending (s : JudgeSt) (p : Pending) (after : Disk) (probesAfter : String
 
 def judgeStep (s : JudgeSt) (op out : String) : JudgeSt :=
   if s.dead || out == "skip" then s else
+  -- the request killed the handler / the engine process: certainly not all-or-nothing
+  if out.startsWith "child-died" || (out.splitOn "transport-error").length > 1 then
+    { s with dead := true,
+             fail := match s.fail with
+               | some f => some f
+               | none => some ("- the-request-killed-the-handler " ++ pctEnc out) } else
   match words op with
   | "init" :: _ => if out == "ok" then s else { s with dead := true }
   | ["ls"] =>
